@@ -377,6 +377,37 @@ PROPS["C18"] = {
         "technique": "Lean 4 proof (truth tables of the regenerated predicates, induction over the retry loop and over attempts, invariants over interleavings of reads, context algebra) + regenerated-kernel tie + structural facts + differential correspondence end to end"},
 }
 
+PROPS["C19"] = {
+    "props": "Failsafe.Props.C19", "ties": [], "kernels": [],
+    "facts": ["spawnSites", "hedgeChanCap", "mergeReleaseStopsWatcher", "httpClosesPreviousResponse", "httpReleaseOnBodyClose",
+              "timerStops",
+              "bodies/hedgeexecutor:executor.Apply", "bodies/timeoutexecutor:executor.Apply", "bodies/executor:executor.executeAsync", "bodies/result:executionResult.record",
+              "bodies/util:.MergeContexts", "bodies/http:.doRequest", "bodies/http:cancelOnCloseBody.Close",
+              "bodies/client:.NewUnaryClientInterceptorWithExecutor", "bodies/server:.NewUnaryServerInterceptorWithExecutor"],
+    "required_theorems": ["Failsafe.Props.C19.spawn_sites_are_the_modelled_ones", "Failsafe.Props.C19.attempt_goroutines_finish", "Failsafe.Props.C19.hedge_chan_cap_ok",
+                          "Failsafe.Props.C19.unbuffered_channel_leaks", "Failsafe.Props.C19.watcher_ends_on_release", "Failsafe.Props.C19.merge_release_stops_watcher",
+                          "Failsafe.Props.C19.timeout_timer_quiesces", "Failsafe.Props.C19.async_runner_finishes", "Failsafe.Props.C19.retried_responses_closed",
+                          "Failsafe.Props.C19.nothing_left_after_close", "Failsafe.Props.C19.http_shape_ok", "Failsafe.Props.C19.hinv_step"],
+    "diff": [],
+    "rule": "STRESS leaks: 200 (x scale) executions over six stacks of hedge / timeout / retry / fallback / bulkhead / rate limiter with successes, failures, rejections, timeouts, "
+            "context deadlines, context cancellations and async Cancel, function durations 0-1.2 ms around the timeouts; STRESS adapterleaks: 120 (x scale) HTTP calls "
+            "(RoundTripper and Request.Do; retry with Retry-After 0, ReturnLastFailure, timeouts that fire, hedges incl. pairs of attempts answered at the same instant, "
+            "streamed bodies; long-lived caller context with values, long-lived executor context) and 120 gRPC client / server interceptor calls (retry, hedge, firing "
+            "timeout); census after quiescence and a grace period: no goroutine with a frame of this module, goroutine count not grown, every response obtained by "
+            "sequential attempts closed, no connection left open at the server",
+    "runners": [stress_runner("leaks", "goroutines started on behalf of finished executions are still alive after a grace period", confirm=2),
+                stress_runner("adapterleaks", "after HTTP / gRPC calls through the adapters returned (and the returned bodies were closed) goroutines of this module, unclosed retried responses or open server connections remain", confirm=2)],
+    "assumptions": CONC_ASSUME if False else ["the Go scheduler's interleavings are sampled (statistical), the model's are covered completely",
+                    "user functions, listeners and fallbacks return (the property's premise)", "the caller closes the body of the response it is handed (also the one inside ExceededError)"],
+    "modelled": ["goroutines, channel send/receive, time.AfterFunc / context.AfterFunc registration and Stop are modelled as atomic actions",
+                 "a hedge loser that obtained a response is released by the cancellation of its attempt's context (net/http closes the connection): observed by the server-side connection census, not modelled",
+                 "time.NewTimer timers are not processes: FACTS check that each is stopped on every branch that leaves its select without the timer having fired"],
+    "manifest": {
+        "text": "Lean 4 theorems over process models of everything the library starts (the spawn-site set is a decided FACTS expectation, so a new go statement or timer is a broken obligation): a hedge attempt goroutine whose function has returned has ended or completes its single send in one step, for any number of attempts and any schedule, also when the coordinator returned on cancellation without receiving (inductive invariant: pending sends + buffered + received = CAS flag; needs channel capacity >= 1, taken from FACTS; witness that an unbuffered channel leaks in every continuation); the context merger's watcher is gone (or finishing) once an attempt has released its context, in every reachable state (kernel-decided closure; needs the release to stop the watcher: FACTS; witness for the defective shape); once a call through a Timeout has returned its timer is stopped or its callback ends within three unconditional steps (decided over all reachable states of the C07 model); the async runner ends with three unconditional stores; over the retry loop of doRequest, for every outcome sequence, the only response still open and the only per-attempt context still alive is the last attempt's, and nothing is left once the caller closes it (induction; shape inputs from FACTS; witness for the unclosed-retried-responses shape). Tie: FACTS (spawn sites, channel capacity, release shape, timer stops, bodies), STRESS goroutine / connection / response census for the core library and for the HTTP and gRPC adapters.",
+        "note": "Trusted: Lean kernel; fact extractor; census harness. Partial: the Go scheduler and runtime are sampled by the census; net/http connection handling is observed (server-side connection census), not modelled.",
+        "technique": "Lean 4 proof (inductive invariant with unbounded goroutines, kernel-decided closures of finite process models, induction over attempt sequences) + structural facts + goroutine/connection census"},
+}
+
 CONC_ASSUME = ["the Go scheduler's interleavings are sampled (statistical), the model's are covered completely",
                "user functions cooperate with cancellation and do not panic", "Go timers never fire early"]
 
